@@ -136,3 +136,113 @@ pub proof fn lemma_poll_injective(a: PollMessages, b: PollMessages)
     assert(un_le32(le32(a.count)) == un_le32(le32(b.count)));
     assert(ta[13] == tb[13]);
 }
+
+// absolute positions of every field of a PollMessages frame
+pub proof fn lemma_poll_layout(v: PollMessages)
+    ensures
+        ({
+            let b = enc_poll(v);
+            let p1 = 3 + v.consumer.id.value@.len() as int;
+            let p2 = p1 + 2 + v.stream_id.value@.len() as int;
+            let p3 = p2 + 2 + v.topic_id.value@.len() as int;
+            &&& b.len() == p3 + 18
+            &&& b[0] == consumerkind_code(v.consumer.kind)
+            &&& b.subrange(1, b.len() as int) == enc_identifier(v.consumer.id) + tail1(v.stream_id, v.topic_id, v.partition_id, poll_tail(v.strategy, v.count, v.auto_commit))
+            &&& b.subrange(p1, b.len() as int) == enc_identifier(v.stream_id) + tail2(v.topic_id, v.partition_id, poll_tail(v.strategy, v.count, v.auto_commit))
+            &&& b.subrange(p2, b.len() as int) == enc_identifier(v.topic_id) + tail3(v.partition_id, poll_tail(v.strategy, v.count, v.auto_commit))
+            &&& b.subrange(p3, p3 + 4) == le32(pid_wire(v.partition_id))
+            &&& b[p3 + 4] == pollingkind_code(v.strategy.kind)
+            &&& b.subrange(p3 + 5, p3 + 13) == le64(v.strategy.value)
+            &&& b.subrange(p3 + 13, p3 + 17) == le32(v.count)
+            &&& b[p3 + 17] == bool_wire(v.auto_commit)
+        }),
+{
+    let b = enc_poll(v);
+    let tl = poll_tail(v.strategy, v.count, v.auto_commit);
+    let p1 = 3 + v.consumer.id.value@.len() as int;
+    let p2 = p1 + 2 + v.stream_id.value@.len() as int;
+    let p3 = p2 + 2 + v.topic_id.value@.len() as int;
+    lemma_head_layout(v.consumer, v.stream_id, v.topic_id, v.partition_id, tl);
+    lemma_poll_tail_layout(v.strategy, v.count, v.auto_commit);
+    let t = b.subrange(p3 + 4, b.len() as int);
+    assert(t == tl);
+    assert(b[p3 + 4] == t[0]);
+    assert(b.subrange(p3 + 5, p3 + 13) =~= t.subrange(1, 9));
+    assert(b.subrange(p3 + 13, p3 + 17) =~= t.subrange(9, 13));
+    assert(b[p3 + 17] == t[13]);
+}
+
+// the encoding and validity depend on the Rust value only through its contents (Vec views)
+pub proof fn lemma_poll_eq_enc(a: PollMessages, b: PollMessages)
+    requires poll_eq(a, b),
+    ensures enc_poll(a) == enc_poll(b), poll_valid(a) == poll_valid(b),
+{
+    assert(enc_poll(a) =~= enc_poll(b));
+}
+
+// ---- StoreConsumerOffset ---------------------------------------------------------------------------------------------------
+pub proof fn lemma_store_layout(v: StoreConsumerOffset)
+    ensures
+        ({
+            let b = enc_store(v);
+            let p1 = 3 + v.consumer.id.value@.len() as int;
+            let p2 = p1 + 2 + v.stream_id.value@.len() as int;
+            let p3 = p2 + 2 + v.topic_id.value@.len() as int;
+            &&& b.len() == p3 + 12
+            &&& b[0] == consumerkind_code(v.consumer.kind)
+            &&& b.subrange(1, b.len() as int) == enc_identifier(v.consumer.id) + tail1(v.stream_id, v.topic_id, v.partition_id, le64(v.offset))
+            &&& b.subrange(p1, b.len() as int) == enc_identifier(v.stream_id) + tail2(v.topic_id, v.partition_id, le64(v.offset))
+            &&& b.subrange(p2, b.len() as int) == enc_identifier(v.topic_id) + tail3(v.partition_id, le64(v.offset))
+            &&& b.subrange(p3, p3 + 4) == le32(pid_wire(v.partition_id))
+            &&& b.subrange(p3 + 4, p3 + 12) == le64(v.offset)
+        }),
+{
+    lemma_le_facts();
+    lemma_head_layout(v.consumer, v.stream_id, v.topic_id, v.partition_id, le64(v.offset));
+}
+pub proof fn lemma_store_injective(a: StoreConsumerOffset, b: StoreConsumerOffset)
+    requires store_valid(a), store_valid(b), enc_store(a) == enc_store(b),
+    ensures store_eq(a, b),
+{
+    lemma_le_facts();
+    lemma_head_prefix_free(a.consumer, a.stream_id, a.topic_id, a.partition_id, le64(a.offset), b.consumer, b.stream_id, b.topic_id, b.partition_id, le64(b.offset));
+    assert(un_le64(le64(a.offset)) == un_le64(le64(b.offset)));
+}
+pub proof fn lemma_store_eq_enc(a: StoreConsumerOffset, b: StoreConsumerOffset)
+    requires store_eq(a, b),
+    ensures enc_store(a) == enc_store(b), store_valid(a) == store_valid(b),
+{
+    assert(enc_store(a) =~= enc_store(b));
+}
+
+// ---- GetConsumerOffset -----------------------------------------------------------------------------------------------------
+pub proof fn lemma_get_layout(v: GetConsumerOffset)
+    ensures
+        ({
+            let b = enc_get(v);
+            let p1 = 3 + v.consumer.id.value@.len() as int;
+            let p2 = p1 + 2 + v.stream_id.value@.len() as int;
+            let p3 = p2 + 2 + v.topic_id.value@.len() as int;
+            &&& b.len() == p3 + 4
+            &&& b[0] == consumerkind_code(v.consumer.kind)
+            &&& b.subrange(1, b.len() as int) == enc_identifier(v.consumer.id) + tail1(v.stream_id, v.topic_id, v.partition_id, Seq::<u8>::empty())
+            &&& b.subrange(p1, b.len() as int) == enc_identifier(v.stream_id) + tail2(v.topic_id, v.partition_id, Seq::<u8>::empty())
+            &&& b.subrange(p2, b.len() as int) == enc_identifier(v.topic_id) + tail3(v.partition_id, Seq::<u8>::empty())
+            &&& b.subrange(p3, p3 + 4) == le32(pid_wire(v.partition_id))
+        }),
+{
+    lemma_le_facts();
+    lemma_head_layout(v.consumer, v.stream_id, v.topic_id, v.partition_id, Seq::<u8>::empty());
+}
+pub proof fn lemma_get_injective(a: GetConsumerOffset, b: GetConsumerOffset)
+    requires get_valid(a), get_valid(b), enc_get(a) == enc_get(b),
+    ensures get_eq(a, b),
+{
+    lemma_head_prefix_free(a.consumer, a.stream_id, a.topic_id, a.partition_id, Seq::<u8>::empty(), b.consumer, b.stream_id, b.topic_id, b.partition_id, Seq::<u8>::empty());
+}
+pub proof fn lemma_get_eq_enc(a: GetConsumerOffset, b: GetConsumerOffset)
+    requires get_eq(a, b),
+    ensures enc_get(a) == enc_get(b), get_valid(a) == get_valid(b),
+{
+    assert(enc_get(a) =~= enc_get(b));
+}
